@@ -133,4 +133,17 @@ CHECKS = {
         "level_note": "The reader schedule is owned by the harness (ChunkReader records the boundaries actually observed). Offsets after errors and token streams of invalid documents are not compared.",
         "assumptions": ["Unmarshal's result on each single document is the reference for the stream"],
     },
+    "C06": {
+        "pkg": "c06", "variants": [PLAIN], "mem_gb": 12, "hang_cpu": 120,
+        "rule": ("every case calls Unmarshal / UnmarshalWithOption(first-win) / UnmarshalContext / UnmarshalNoEscape, Decoder.Decode (drawn chunking) / Token / More / Buffered / InputOffset, a Decoder over a failing "
+                 "reader, Valid, Compact, Indent, HTMLEscape, 14 compiled Paths (Extract, Unmarshal) and CreatePath(input)+Get; oracle: every call returns (no recovered panic; a dying or non-progressing child is "
+                 "attributed through the journal; 120 s CPU without progress = hang). Inputs: (a) generated valid texts (free and type-directed) with every truncation and 40 drawn single-byte mutations, into 26 fixed "
+                 "destinations (all kinds, ,string, keyed maps, Unmarshalers, a recursive struct) or a generated type; (b) every byte string of length <= 3 (4 thorough) over the structural alphabet x 3 destinations; "
+                 "(c) 13 nesting/size bomb shapes x sizes 10^3..10^6 (10^7 thorough) as document, ignored member, Unmarshaler payload, recursive-struct chain; (d) every path string of length <= 5 (6) over "
+                 "$.[]*'\"01ab. Non-trivial = input not valid JSON, or a bomb, or an enumerated string; distinct by hash / by construction."),
+        "technique": "robustness fuzzing: generated + exhaustively enumerated + mutated inputs and nesting bombs through every decoding/utility entry point in supervised child processes (crash and hang attribution by journal)",
+        "level_text": "Broad randomised and small-scope exhaustive robustness exploration with crash isolation; exploration level (native coverage-guided fuzzing is not part of the registered commands).",
+        "level_note": "A CPU-time budget without journal progress stands in for non-termination. Only 'returns' is asserted, not what is returned.",
+        "assumptions": ["120 s of CPU without progress on inputs <= 30 MB means a hang"],
+    },
 }
